@@ -11,6 +11,12 @@ lambda lifting   A helper nested in a function that reads locals of the enclosin
                  Only helpers that are always called directly (never used as a value), take no
                  *args / **kwargs, are not decorated, and do not re-bind the captured name are
                  lifted; everything else is left as it is.
+
+table unrolling  `for k, f in (("a", fa), ("b", fb)): BODY` over a *literal* table of literal rows
+                 (at most 8 rows, constants / names only, no break / continue / else) is replaced by
+                 `k, f = "a", fa; BODY; k, f = "b", fb; BODY`: the same program, and a table-driven
+                 dispatch then reads like the if / elif chain it replaces.  Loops over a flat literal
+                 list (the backends' registration loops) are left alone.
 """
 
 from __future__ import annotations
@@ -142,3 +148,47 @@ def lambda_lift(tree: ast.Module) -> int:
     if lifted:
         ast.fix_missing_locations(tree)
     return lifted
+
+
+def unroll_table_loops(tree: ast.Module) -> int:
+    import copy
+
+    def literal_row(e, n):
+        return isinstance(e, (ast.Tuple, ast.List)) and len(e.elts) == n and all(isinstance(x, (ast.Constant, ast.Name, ast.Attribute)) for x in e.elts)
+
+    count = 0
+
+    class U(ast.NodeTransformer):
+        def visit_For(self, node):
+            nonlocal count
+            self.generic_visit(node)
+            it, tg = node.iter, node.target
+            if (
+                isinstance(it, (ast.Tuple, ast.List))
+                and 1 <= len(it.elts) <= 8
+                and isinstance(tg, (ast.Tuple, ast.List))
+                and len(tg.elts) >= 2
+                and all(isinstance(x, ast.Name) for x in tg.elts)
+                and all(literal_row(e, len(tg.elts)) for e in it.elts)
+                and not node.orelse
+                and not any(isinstance(x, (ast.Break, ast.Continue)) for b in node.body for x in ast.walk(b))
+            ):
+                tnames = {x.id for x in tg.elts}
+                if any(isinstance(x, ast.Name) and x.id in tnames for e in it.elts for x in ast.walk(e)):
+                    return node
+                out = []
+                for e in it.elts:
+                    a = ast.Assign(targets=[copy.deepcopy(tg)], value=ast.Tuple(elts=[copy.deepcopy(x) for x in e.elts], ctx=ast.Load()), type_comment=None)
+                    ast.copy_location(a, e)
+                    ast.copy_location(a.value, e)
+                    a._unrolled = True
+                    out.append(a)
+                    out.extend(copy.deepcopy(node.body))
+                count += 1
+                return out
+            return node
+
+    U().visit(tree)
+    if count:
+        ast.fix_missing_locations(tree)
+    return count
